@@ -4,6 +4,7 @@ table, the builder invariant, and the reader on a file produced by the builder.
 -/
 import LinVerif.Model.Table
 import LinVerif.Lemmas.C14FixedOffset
+set_option linter.unusedSimpArgs false
 namespace LinVerif.Table
 
 theorem leBytes_length : ∀ (w v : Nat), (leBytes w v).length = w := by
@@ -934,5 +935,127 @@ theorem build_ok {K : KeySetOps B} (hK : K.Lawful) (items : List Put) :
     have h2 := (marshal_length_bounds vs hvne hvlt).2
     rw [hinv.pre.offset, hvs]
     omega
+
+/-! ## byte-level layout of the finished file -/
+
+/-- `Close` writes: the value bytes, C14's marshalled table of their start offsets, the marshalled
+key bitmap, and the 17-byte footer pointing at the two middle sections -/
+theorem close_layout {K : KeySetOps B} {b : Builder B} {es : List (Nat × Bytes)} (h : Inv K b es)
+    (hK : K.Lawful) (hne : es ≠ []) :
+    b.close K = some
+      ((es.map (·.2)).flatten ++
+       (FixedOffset.encOf true (startsFrom 0 (es.map (·.2)))).marshal ++
+       K.marshal ((es.map (·.1)).foldl K.add K.empty) ++
+       footer (es.map (·.2)).flatten.length
+         ((es.map (·.2)).flatten.length +
+           (FixedOffset.encOf true (startsFrom 0 (es.map (·.2)))).marshal.length)) := by
+  have hp := h.pre
+  have hW : b.written = (es.map (·.2)).flatten := by simpa using hp.written
+  have hs : b.size = (es.map (·.2)).flatten.length := by rw [hp.size, hW]
+  have hemp : K.isEmpty b.keys = false := by
+    rw [hK.isEmpty_eq, hp.keys]; cases es <;> simp_all
+  have hemp' : K.isEmpty ((es.map (·.1)).foldl K.add K.empty) = false := by rw [← hp.keysVal]; exact hemp
+  unfold Builder.close
+  simp only [hW, hs, hp.offset, hp.keysVal, hemp', Bool.false_eq_true, if_false]
+
+/-- the footer read back field by field: positions modulo 2^32 (the code stores `uint32(pos)`),
+the version byte, the magic number -/
+theorem footer_fields (p1 p2 : Nat) :
+    (footer p1 p2).length = sstFileFooterSize ∧
+    leVal ((footer p1 p2).take 4) = p1 % 4294967296 ∧
+    leVal (((footer p1 p2).drop 4).take 4) = p2 % 4294967296 ∧
+    (footer p1 p2)[8]? = some version0 ∧
+    leVal (((footer p1 p2).drop magicNumberAtFooter).take 8) = magicNumberOffsetFile := by
+  refine ⟨footer_length p1 p2, ?_, ?_, ?_, ?_⟩
+  · rw [footer_pos1, leVal_leBytes]
+  · rw [footer_pos2, leVal_leBytes]
+  · simp [footer, leBytes]
+  · rw [footer_magic, leVal_leBytes_of_lt _ _ magic_lt]
+
+/-- a file whose last 8 bytes are not the magic number is refused -/
+theorem open_refuses_bad_magic (K : KeySetOps B) (full : Bytes)
+    (h : leVal ((full.drop (full.length - sstFileFooterSize + magicNumberAtFooter)).take 8) ≠ magicNumberOffsetFile) :
+    Reader.open K full = none := by
+  unfold Reader.open
+  split
+  · rfl
+  · simp only [h, ne_eq, not_false_eq_true, if_true]
+
+/-! ## rank and the 65536-key containers -/
+
+/-- `Rank(k)` split at k's container: the members in lower containers (the container's *base*)
+plus the members of k's own container up to k. The base counts members **below** the container's
+first possible key `(k/65536)·65536` — not `Rank` of that key, which also counts the key itself. -/
+theorem rank_container_split {K : KeySetOps B} (hK : K.Lawful) (b : B) (k : Nat) :
+    K.rank b k =
+      (K.toList b).countP (fun x => decide (x < k / 65536 * 65536)) +
+      (K.toList b).countP (fun x => decide (x / 65536 = k / 65536 ∧ x % 65536 ≤ k % 65536)) := by
+  rw [hK.rank_eq]
+  induction K.toList b with
+  | nil => rfl
+  | cons x t ih =>
+    simp only [List.countP_cons, ih]
+    have hx := Nat.div_add_mod x 65536
+    have hk := Nat.div_add_mod k 65536
+    have hxm := Nat.mod_lt x (show 65536 > 0 by decide)
+    have hkm := Nat.mod_lt k (show 65536 > 0 by decide)
+    by_cases h1 : x ≤ k
+    · by_cases h2 : x < k / 65536 * 65536
+      · have h3 : ¬ (x / 65536 = k / 65536 ∧ x % 65536 ≤ k % 65536) := by
+          intro hc; omega
+        simp [h1, h2, h3]; omega
+      · have h3 : x / 65536 = k / 65536 ∧ x % 65536 ≤ k % 65536 := by
+          have : x / 65536 = k / 65536 := by omega
+          exact ⟨this, by omega⟩
+        simp [h1, h2, h3]; omega
+    · have h2 : ¬ x < k / 65536 * 65536 := by omega
+      have h3 : ¬ (x / 65536 = k / 65536 ∧ x % 65536 ≤ k % 65536) := by
+        intro hc; omega
+      simp [h1, h2, h3]
+
+/-- the base of k's container in terms of `Rank`: `Rank(first key of the container)` minus one if
+that first key is itself a member -/
+theorem container_base_eq {K : KeySetOps B} (hK : K.Lawful) (b : B) (k : Nat) :
+    (K.toList b).countP (fun x => decide (x < k / 65536 * 65536)) + (K.toList b).countP (fun x => decide (x = k / 65536 * 65536)) =
+      K.rank b (k / 65536 * 65536) := by
+  rw [hK.rank_eq]
+  induction K.toList b with
+  | nil => rfl
+  | cons x t ih =>
+    simp only [List.countP_cons, ← ih]
+    by_cases h1 : x < k / 65536 * 65536
+    · have : ¬ x = k / 65536 * 65536 := by omega
+      have : x ≤ k / 65536 * 65536 := by omega
+      simp [*]; omega
+    · by_cases h2 : x = k / 65536 * 65536
+      · simp [h2]; omega
+      · have : ¬ x ≤ k / 65536 * 65536 := by omega
+        simp [*]
+
+/-! ## FindFiles / FindReaders -/
+
+/-- `FindFiles` consults every file of every level -/
+theorem mem_findFiles (levels : List (List FileMeta)) (key : Nat) (f : FileMeta) :
+    f ∈ findFiles levels key ↔ f ∈ levels.flatten ∧ f.minKey ≤ key ∧ key ≤ f.maxKey := by
+  rw [findFiles_eq, List.mem_filter]
+  simp
+
+theorem findReaders_spec {K : KeySetOps B} (fs : Nat → Option Bytes) (levels : List (List FileMeta))
+    (ent : FileMeta → List (Nat × Bytes)) (key : Nat) (hok : VersionOK K fs levels.flatten ent) :
+    findReaders K fs levels key = some ((findFiles levels key).map (·.fileNumber)) := by
+  unfold findReaders
+  have : ∀ l : List FileMeta, (∀ f ∈ l, f ∈ levels.flatten) →
+      l.mapM (fun f => match fs f.fileNumber with
+        | none => none
+        | some bytes => (Reader.open K bytes).map (fun _ => f.fileNumber)) = some (l.map (·.fileNumber)) := by
+    intro l
+    induction l with
+    | nil => intro _; rfl
+    | cons f t ih =>
+      intro hl
+      obtain ⟨bytes, r, h1, h2, _, _⟩ := hok f (hl f (List.mem_cons_self))
+      simp only [List.mapM_cons, h1, h2, Option.map_some, ih (fun g hg => hl g (List.mem_cons_of_mem _ hg))]
+      rfl
+  exact this _ (fun f hf => ((mem_findFiles levels key f).mp hf).1)
 
 end LinVerif.Table
